@@ -54,12 +54,12 @@ def run(prop, tier, seed, rule, assumptions, shards=4, isolate=False, vlimit_kb=
         extra_vec(ck, vec)      # further vectors, never sampled away
     ck.binary = vlib.build_harness()
     rr = vlib.run_harness(ck.binary, prop, vec, seed=seed, tier=tier, shards=shards, timeout=3000, isolate=isolate, vlimit_kb=vlimit_kb)
-    os.unlink(vec)
     ck.absorb(rr)
     for cr in rr.crashes:
         ck.violations.append(({"t": "div", "prop": prop, "api": "process", "want": "no fatal error",
                                "got": "fatal: " + cr["stderr"][:400], "case": {"vector_index": cr["index"]}}, 1))
-    ck.triage(rr.divs, vlimit_kb=vlimit_kb)
+    ck.triage(rr.divs, vlimit_kb=vlimit_kb, rerun=rr.again)
+    os.unlink(vec)
     ck.exhaustive = getattr(ck, "exhaustive_replay", True)
     ck.rule = rule
     ck.assumptions = assumptions
